@@ -19,6 +19,7 @@ import (
 	"github.com/refraction-networking/conjure/pkg/station/liveness"
 	"github.com/refraction-networking/conjure/pkg/station/log"
 	"github.com/refraction-networking/conjure/pkg/transports"
+	"github.com/refraction-networking/conjure/pkg/verifhook"
 	pb "github.com/refraction-networking/conjure/proto"
 )
 
@@ -140,6 +141,7 @@ func (rm *RegistrationManager) ingestRegistration(reg *DecoyRegistration) {
 		return
 	}
 
+	verifhook.Yield("ingest.exists", reg)
 	if rm.RegistrationExists(reg) {
 		// log phantom IP, shared secret, ipv6 support
 		logger.Debugf("Duplicate registration: %v %s\n", reg.IDString(), reg.RegistrationSource)
@@ -148,6 +150,7 @@ func (rm *RegistrationManager) ingestRegistration(reg *DecoyRegistration) {
 
 		// Track the received registration, if it is already tracked
 		// it will just update the record
+		verifhook.Yield("ingest.duptrack", reg)
 		err := rm.TrackRegistration(reg)
 		if err != nil {
 			logger.Errorln("error tracking registration: ", err)
@@ -161,6 +164,7 @@ func (rm *RegistrationManager) ingestRegistration(reg *DecoyRegistration) {
 	logger.Debugf("New registration: %s %v\n", reg.IDString(), reg.String())
 
 	// Track the received registration
+	verifhook.Yield("ingest.track", reg)
 	err := rm.TrackRegistration(reg)
 	if err != nil {
 		logger.Errorln("error tracking registration: ", err)
@@ -170,6 +174,7 @@ func (rm *RegistrationManager) ingestRegistration(reg *DecoyRegistration) {
 
 	// If registration is trying to connect to a covert address that
 	// is blocklisted consider registration INVALID and continue
+	verifhook.Yield("ingest.covert", reg)
 	covert, lookup := rm.ParseOrResolveBlocklisted(reg.Covert)
 	if lookup {
 		rm.addDNSResolution()
@@ -193,6 +198,7 @@ func (rm *RegistrationManager) ingestRegistration(reg *DecoyRegistration) {
 
 	// Perform liveness test IFF not done by other station or v6 (v6 should
 	// never be live)
+	verifhook.Yield("ingest.liveness", reg)
 	if !reg.PreScanned() && reg.PhantomIp.To4() != nil {
 		// New registration received over channel that requires liveness scan for the phantom
 		live, response := rm.PhantomIsLive(reg.PhantomIp.String(), reg.PhantomPort)
@@ -209,6 +215,7 @@ func (rm *RegistrationManager) ingestRegistration(reg *DecoyRegistration) {
 		Stat().AddLivenessPass()
 	}
 
+	verifhook.Yield("ingest.share", reg)
 	if *reg.RegistrationSource == pb.RegistrationSource_Detector {
 		if rm.EnableShareOverAPI {
 			// Registration received from decoy-registrar, share over API if enabled.
@@ -230,6 +237,7 @@ func (rm *RegistrationManager) ingestRegistration(reg *DecoyRegistration) {
 
 	}
 	// validate the registration
+	verifhook.Yield("ingest.add", reg)
 	rm.AddRegistration(reg)
 	logger.Debugf("Adding registration %v\n", reg.IDString())
 	Stat().AddReg(reg.DecoyListVersion, reg.RegistrationSource)
